@@ -59,8 +59,8 @@ class Node:
 
     def calls(self):
         e = self.expr()
-        if e is None or self.kind == "with_exit":
-            return []
+        if e is None or self.kind == "with_exit" or isinstance(e, (ast.FunctionDef, ast.AsyncFunctionDef, ast.ClassDef)):
+            return []  # a nested def is a definition, not an execution of its body
         return calls_in(e)
 
     def text(self):
